@@ -458,7 +458,12 @@ class Plane(object):
                 'x': self.x.to_array()}
 
     def __copy__(self):
-        return Plane(self.n, self.o, self.x)
+        # copy the stored axes as they are: re-normalising unit vectors changes their last bits
+        new_plane = Plane.__new__(Plane)
+        new_plane._n, new_plane._o, new_plane._k = self._n, self._o, self._k
+        new_plane._x, new_plane._y = self._x, self._y
+        new_plane._altitude, new_plane._azimuth = self._altitude, self._azimuth
+        return new_plane
 
     def __key(self):
         """A tuple based on the object properties, useful for hashing."""
